@@ -48,7 +48,10 @@ def betweenness_bin(G):
     # calculate NSP and L
     while np.any(NSPd):
         d += 1
-        NPd = np.dot(NPd, G)
+        # extend shortest paths only: a walk of length d to a node first reached
+        # at step d is a shortest path extended by one connection (counting all
+        # walks overflows on long dense networks and the loop never ended)
+        NPd = np.dot(NSPd, G)
         NSPd = NPd * (L == 0)
         NSP += NSPd
         L = L + d * (NSPd != 0)
